@@ -472,7 +472,10 @@ def run_rewrite(case):
     outs = []
     GA = {"group": "w/grp", "members": [rs("w/p", [["string", "a"], ["varint", "n"]], ["'ga'", "1"]), rs("w/q", [["datetime", "t"]], ["dt(2020,1,1,tz=UTC)"])]}
     GB = {"group": "w/grp", "members": [rs("w/r", [["string", "owner"]], ["'gb'"]), rs("w/s", [["string", "a"], ["varint", "mode"]], ["'x'", "7"])]}
-    for label, spec in (("D", D), ("D1", D1), ("D2", D2), ("D", D), ("GA", GA), ("GB", GB), ("GA", GA)):
+    # members that share field names: the flat view (and so the rewritten record) takes the FIRST member's value and metadata
+    GC = {"group": "w/grp2", "members": [rs("w/p", [["string", "a"], ["varint", "n"]], ["'first'", "1"], _source="'src-first'"),
+                                         rs("w/s", [["string", "a"], ["varint", "mode"]], ["'second'", "7"], _source="'src-second'")]}
+    for label, spec in (("D", D), ("D1", D1), ("D2", D2), ("D", D), ("GA", GA), ("GB", GB), ("GA", GA), ("GC", GC)):
         rec = recs.build_record(spec)
         before = obs(rec)
         if "group" in spec:
@@ -488,9 +491,11 @@ def run_rewrite(case):
                 if got_fields != [[tmap[n], n] for n in keep]:
                     viol.append(("C15:rewrite:fields:%s:grouped" % label, case, {"got": got_fields, "want": [[tmap[n], n] for n in keep]}))
                 else:
-                    for n in keep:
-                        if obs(getattr(out, n)) != obs(getattr(rec, n)):
-                            viol.append(("C15:rewrite:value-changed:%s:grouped" % label, case, {"field": n}))
+                    for n in keep + ["_source", "_classification", "_generated"]:
+                        first_owner = next(m for m in rec.records if n in m.__slots__)
+                        if obs(getattr(out, n)) != obs(getattr(first_owner, n)):
+                            viol.append(("C15:rewrite:value-changed:%s:grouped:%s" % (label, "metadata" if n.startswith("_") else "field"), case,
+                                         {"field": n, "got": repr(getattr(out, n))[:60], "first_member_has": repr(getattr(first_owner, n))[:60]}))
                             break
                 outs.append("ok")
             except Exception as e:  # noqa: BLE001
